@@ -364,6 +364,10 @@ PROPERTIES["C13"] = {
     "engine-level harness kani/core/src/c03.rs, validated natively, beyond the solver (DESIGN.md 2.1); budgets of the PCT and URW "
     "schedulers (hashbrown / unbounded rejection-sampling loops in `rand`; the random scheduler's budget is asserted under C10); "
     "Runner::run's loop and count; max_time",
+    "assumptions": STANDARD_ASSUMPTIONS
+    + ["c13_step_bound_reaction only: shuttle_engine::verif_support::TaskTable::iter (first access of ExecutionState::schedule to the "
+       "task table, under the hooks) replaced by a stub that asserts 'the step bound was not reached' and ends the path "
+       "(kani::assume(false)): nothing behind it is part of that harness's claim"],
     "rule": "",
 }
 del PROPERTIES["C03"]
@@ -411,6 +415,9 @@ PROPERTIES["C10"] = {
     "uniformity / independence of the choice and eventual coverage of every schedule (probabilistic statements); the uniform "
     "random walk scheduler (std HashMap: hashbrown probing is beyond the solver); SHUTTLE_RANDOM_SEED / "
     "SHUTTLE_ALWAYS_PERSIST_SEED set in the environment (stubbed unset); more than two operations per iteration (three: 12 GB exhausted during symbolic execution)",
+    "assumptions": STANDARD_ASSUMPTIONS
+    + ["std::env::var stubbed to Err(NotPresent): SHUTTLE_ALWAYS_PERSIST_SEED is unset (SHUTTLE_RANDOM_SEED: seed_from_env is the identity)",
+       "construction seeds are concrete; the reported per-iteration seeds are whatever the real generators produce from them"],
     "rule": "",
 }
 
